@@ -435,7 +435,8 @@ func splitStyleDecls(style string) []string {
 			if ch == quote {
 				quote = 0
 			}
-		case ch == '"' || ch == '\'':
+		case (ch == '"' || ch == '\'') && strings.IndexByte(style[i+1:], ch) >= 0:
+			// (a quote without a partner - font-family:O'Reilly Sans - is a character of the value)
 			quote = ch
 		case ch == '(':
 			depth++
